@@ -242,6 +242,9 @@ func (j *mergejoin[T]) onSubCollectionEventHandler(o []Event[T]) {
 			if j.log.DebugEnabled() {
 				j.log.WithLabels("res", objKey).Debugf("handled delete")
 			}
+			// The delete (of the merged value) has been recorded and the indexes updated: do not fall through
+			// to the common tail, which would emit the same delete a second time.
+			continue
 		} else {
 			// We can trust these events as authoritative because we checked the state of the collections
 			// in refreshEvents.
